@@ -408,10 +408,17 @@ def dtype_oracle(kind="lstm"):
 def run_cases(ctx, cases):
     lines, index, real = [], [], []
     for ci, c in enumerate(cases):
-        t, d = build(c)
         x, xin, st = make_input(c)
-        with int_activations(c["mode"] == "int"), torch.no_grad():
-            od, hd, cd, _ = run_layer(d, c, xin, st)
+        try:
+            t, d = build(c)
+            with int_activations(c["mode"] == "int"), torch.no_grad():
+                od, hd, cd, _ = run_layer(d, c, xin, st)
+        except Exception as e:  # the implementation raising is an observation, not a harness error
+            ctx.count("impl-raised")
+            ctx.case(case_key(c), nontrivial=True, kind=f"{c['kind']}/{c['mode']}/{c['inp']}")
+            mm(ctx, "dp-layer-vs-model", dict(c), f"raised {type(e).__name__}: {str(e)[:200]}", "model: ok (well-formed input)", oracle=oracle)
+            real.append(None)
+            continue
         use_nn = c["mode"] == "float" or c["kind"] == "relu"
         nn_res = None
         if use_nn:
@@ -434,6 +441,8 @@ def run_cases(ctx, cases):
         else:
             per[ci]["spec"].append(rep)
     for ci, c in enumerate(cases):
+        if real[ci] is None:
+            continue
         od, hd, cd, nn_res, x, xin, st = real[ci]
         exact = c["mode"] == "int"
         lstm = c["kind"] == "lstm"
@@ -485,12 +494,12 @@ def run_cases(ctx, cases):
             continue
         light = {k: v for k, v in c.items()}
         if not ok:
-            ctx.mismatch("dp-layer-vs-model", light, impl, per[ci]["fwd"][:2000], oracle=oracle)
+            mm(ctx, "dp-layer-vs-model", light, impl, per[ci]["fwd"][:2000], oracle=oracle)
         elif not nn_ok:
-            ctx.mismatch("torch.nn-vs-spec", light, [fl(t_) for t_ in nn_res if t_ is not None], [r[:600] for r in per[ci]["spec"]], oracle=oracle,
+            mm(ctx, "torch.nn-vs-spec", light, [fl(t_) for t_ in nn_res if t_ is not None], [r[:600] for r in per[ci]["spec"]], oracle=oracle,
                          note="torch.nn disagrees with the per-sequence recurrence the theorems refine to")
         else:
-            ctx.mismatch("model-vs-spec", light, per[ci]["fwd"][:2000], [r[:600] for r in per[ci]["spec"]], oracle=oracle,
+            mm(ctx, "model-vs-spec", light, per[ci]["fwd"][:2000], [r[:600] for r in per[ci]["spec"]], oracle=oracle,
                          note="Lean model and Lean spec disagree on this input (would contradict the refinement theorems: harness bug?)")
 
 
@@ -506,7 +515,12 @@ def names_corr(ctx):
     for gi, (kind, L, b, bias) in enumerate(grid):
         c = {"kind": kind, "I": 3, "H": 2, "L": L, "bidir": b, "bias": bias, "bf": 0}
         t = torch_cls(kind)(3, 2, **layer_kwargs(c))
-        d = dp_cls(kind)(3, 2, **layer_kwargs(c))
+        try:
+            d = dp_cls(kind)(3, 2, **layer_kwargs(c))
+            d.state_dict(), d.old_to_new
+        except Exception as e:
+            mm(ctx, "state_dict-names", {"names": [kind, L, b, bias], "differs": ["construction"]}, f"raised {type(e).__name__}: {e}", "ok", oracle=lambda cc: names_oracle(*cc["names"]))
+            continue
         keys, tkeys, ren, alias, shapes, tshapes = rep[6 * gi : 6 * gi + 6]
         dsd, tsd = d.state_dict(), t.state_dict()
         impl = {
@@ -529,7 +543,7 @@ def names_corr(ctx):
             ctx.validated()
         else:
             bad = [k for k in impl if impl[k] != model[k]]
-            ctx.mismatch("state_dict-names", {"names": [kind, L, b, bias], "differs": bad}, {k: impl[k] for k in bad}, {k: model[k] for k in bad},
+            mm(ctx, "state_dict-names", {"names": [kind, L, b, bias], "differs": bad}, {k: impl[k] for k in bad}, {k: model[k] for k in bad},
                          oracle=lambda cc: names_oracle(*cc["names"]))
 
 
@@ -566,7 +580,7 @@ def csl_corr(ctx):
         if impl == r:
             ctx.validated()
         else:
-            ctx.mismatch("compute_seq_lengths", {"batch_sizes": bs}, impl, r, oracle=csl_oracle)
+            mm(ctx, "compute_seq_lengths", {"batch_sizes": bs}, impl, r, oracle=csl_oracle)
     for lens, r in zip(lens_cases, rep[len(cases):]):
         p = pack_padded_sequence(torch.zeros(max(lens), len(lens), 1), lens)
         impl = "ok " + lst(p.batch_sizes.tolist(), str)
@@ -574,7 +588,7 @@ def csl_corr(ctx):
         if impl == r:
             ctx.validated()
         else:
-            ctx.mismatch("batch_sizes", {"lens": lens}, impl, r, oracle=None)
+            mm(ctx, "batch_sizes", {"lens": lens}, impl, r, oracle=None)
 
 
 def csl_oracle(case):
@@ -631,8 +645,8 @@ def err_corr(ctx):
     lines.append(f"fwd {head(c0)} pad 0 0 {c0['B']} 0 0")
     rep = ctx.lean_driver("C13", lines)
     for (c, what, data, bs, si, ui, st), r in zip(cases, rep):
-        t, d = build(c)
         try:
+            t, d = build(c)
             p = PackedSequence(data, torch.tensor(bs), None if si is None else torch.tensor(si), None if ui is None else torch.tensor(ui))
             with torch.no_grad():
                 od, hd, cd, _ = run_layer(d, c, p, st)
@@ -646,9 +660,9 @@ def err_corr(ctx):
         if good:
             ctx.validated()
         else:
-            ctx.mismatch("error-branches", {"what": what, "batch_sizes": bs, "cfg": {k: c[k] for k in ("I", "H", "L", "bidir", "bias")}}, impl, r[:300], oracle=None)
-    t, d = build(c0)
+            mm(ctx, "error-branches", {"what": what, "batch_sizes": bs, "cfg": {k: c[k] for k in ("I", "H", "L", "bidir", "bias")}}, impl, r[:300], oracle=None)
     try:
+        t, d = build(c0)
         with torch.no_grad():
             d(torch.zeros(0, c0["B"], c0["I"], dtype=torch.float64))
         impl = "ok"
@@ -658,7 +672,17 @@ def err_corr(ctx):
     if impl == rep[-1]:
         ctx.validated()
     else:
-        ctx.mismatch("error-branches", {"what": "T=0 padded"}, impl, rep[-1][:300], oracle=None)
+        mm(ctx, "error-branches", {"what": "T=0 padded"}, impl, rep[-1][:300], oracle=None)
+
+
+def mm(ctx, component, *a, **kw):
+    """at most three reported correspondence breaks per component (all are counted)"""
+    seen = ctx.extra.setdefault("mismatch_counts", {})
+    seen[component] = seen.get(component, 0) + 1
+    if seen[component] <= 3:
+        ctx.mismatch(component, *a, **kw)
+    else:
+        ctx.count("mismatch:" + component)
 
 
 def report(ctx, res, c):
